@@ -711,10 +711,12 @@ def check_history(c, impl_out):
 
 
 # ----------------------------------------------------------------------------- random cases
-DIR_NAMES = ["d", "m", "sub", ".hid", "sp ace", "日本", "x.lz", "E", "@E", "a[b]", "q?", "st*r", "d.cmp", "c{d}", "[!a]"]
+DIR_NAMES = ["d", "m", "sub", ".hid", "sp ace", "日本", "x.lz", "E", "@E", "a[b]", "q?", "st*r", "d.cmp", "c{d}", "[!a]",
+             "x\\y", "tr.", "#h", "100%"]      # backslash (seeded change C13-7), trailing dot, '#', '%': opaque name characters on Unix
 FILE_NAMES = ["a.bin", "b.txt", "c.bin.lz", "g.cmp", "h.cms", ".lz", ".txt", "n", "lz", "t.txt", "e_a.bin", "s_g.cmp",
               "z.lz", "k.cmp", "é.bin", "w x.txt", "a.b.txt", "cmp", ".cms", "a]", "b[1].txt", "u.lz.bak",
-              "{x}.txt", "*.txt", "?.bin", "p.t!", "r.b-c", "v.é"]
+              "{x}.txt", "*.txt", "?.bin", "p.t!", "r.b-c", "v.é",
+              "a\\b.bin", "w\\.txt", "\\", "#x.bin", "50%.txt", "dot.", "ü ü.lz", "%2f.bin"]
 # pattern arguments: all satisfy plain_pattern_arg (asserted below); some with characters that are NOT excluded ('!' '-' '.' ' ' non-ASCII)
 EXTS = ["txt", "bin", "lz", "cmp", "b.txt", "bin.lz", "t!", "b-c", "é", "x.txt"]
 SUB_NAMES = ["sp ace", ".hid", "日本", "x.lz", "@E", "d.cmp"]
